@@ -22,7 +22,7 @@
 #include "layout.h"
 
 #define MAXDEPTH 20
-#define MAXALPHA 96
+#define MAXALPHA 128
 
 static kcfg_t cfg;
 static kop_t alpha[MAXALPHA];
@@ -97,8 +97,19 @@ build_alphabet(const char *name) {
   snprintf(b, sizeof(b), "R1:%d:%d", 0, 1 % kv_nkeys); add_op(b);
   add_op("C");
   add_op("O");
-  if (strcmp(name, "rw") == 0) {
+  if (strcmp(name, "rw") == 0 || strcmp(name, "rwr") == 0) {
     add_op("G1");
+  }
+  if (strcmp(name, "rwr") == 0) {
+    /* every bounded manual compaction of levels 0 and 1: [key_i, key_j], i <= j */
+    int lv, i2, j2;
+    for (lv = 0; lv < 2; lv++)
+      for (i2 = 0; i2 < kv_nkeys; i2++)
+        for (j2 = i2; j2 < kv_nkeys; j2++) {
+          snprintf(b, sizeof(b), "R%d:%d:%d", lv, i2, j2);
+          if (!((lv == 0 && i2 == 1 % kv_nkeys && j2 == 2 % kv_nkeys) || (lv == 1 && i2 == 0 && j2 == 1 % kv_nkeys)))
+            add_op(b);
+        }
   }
   if (strcmp(name, "snap") == 0 || strcmp(name, "iter") == 0 || strcmp(name, "files") == 0) {
     add_op("S");
@@ -759,7 +770,8 @@ main(int argc, char **argv) {
     } else {
       char *copy = strdup(plan), *save = NULL, *item;
       for (item = strtok_r(copy, ";", &save); item && !stop_now; item = strtok_r(NULL, ";", &save)) {
-        char *at = strchr(item, '@'), *hat = strchr(item, '^');
+        char *at = strchr(item, '@'), *hat = strchr(item, '^'), *tilde;
+        const char *item_alph = alph;
         int d = depth, nd = 0, n;
         memset(&root_prefix, 0, sizeof(root_prefix));
         if (hat) {
@@ -775,11 +787,16 @@ main(int argc, char **argv) {
           if (strchr(at + 1, '/'))
             nd = atoi(strchr(at + 1, '/') + 1);
         }
+        tilde = strchr(item, '~');
+        if (tilde) {
+          *tilde = 0;
+          item_alph = tilde + 1;   /* cfg~alphabet@depth... : per-item alphabet */
+        }
         if (!kcfg_parse(&cfg, item))
           vh_die("bad cfg in plan: %s", item);
         if (d + root_prefix.n > MAXDEPTH || nd + root_prefix.n > MAXDEPTH)
           vh_die("plan depth too large");
-        build_alphabet(alph);
+        build_alphabet(item_alph);
         vs_free(&cursor_seen);
         vs_init(&cursor_seen);
         drv_note("plan item cfg=%s depth=%d nodedup_depth=%d prefix_len=%d", item, d, nd, root_prefix.n);
